@@ -393,6 +393,34 @@ func verifControlTOK2RetBad(in io.Reader, n int) ([]string, error) {
 	return out, nil
 }
 
+// TOK-3: an optional column is stored only when the line has it; nothing forces all lines to agree
+func verifControlTOK3Bad(in io.Reader, n int) ([]string, []string, error) {
+	s := bufio.NewScanner(in)
+	a := make([]string, n)
+	b := make([]string, n)
+	has := false
+	cur := 0
+	for s.Scan() && cur < n {
+		f := strings.Fields(s.Text())
+		if len(f) < 1 {
+			return nil, nil, io.ErrUnexpectedEOF
+		}
+		a[cur] = f[0]
+		if len(f) > 1 {
+			b[cur] = f[1]
+			has = true
+		}
+		cur++
+	}
+	if cur < n {
+		return nil, nil, io.ErrUnexpectedEOF
+	}
+	if !has {
+		b = nil
+	}
+	return a, b, nil
+}
+
 // ---- must stay silent ------------------------------------------------------
 
 // checked Scan, ErrUnexpectedEOF, if err := …; err != nil, fmt.Errorf wrapping, continue after a consumed line
@@ -590,6 +618,41 @@ func verifControlGood13(in io.Reader, n int) ([]string, []string, error) {
 		out = append(out, v)
 	}
 	return out, extra, nil
+}
+
+// the optional column is stored only when present, but every line must have the field count of the first one
+func verifControlGood14(in io.Reader, n int) ([]string, []string, error) {
+	s := bufio.NewScanner(in)
+	a := make([]string, n)
+	b := make([]string, n)
+	has := false
+	width := -1
+	cur := 0
+	for s.Scan() && cur < n {
+		f := strings.Fields(s.Text())
+		if len(f) < 1 {
+			return nil, nil, io.ErrUnexpectedEOF
+		}
+		if width == -1 {
+			width = len(f)
+		}
+		if width != len(f) {
+			return nil, nil, fmt.Errorf("line %d has %d fields, expected %d: %w", cur, len(f), width, io.ErrUnexpectedEOF)
+		}
+		a[cur] = f[0]
+		if len(f) > 1 {
+			b[cur] = f[1]
+			has = true
+		}
+		cur++
+	}
+	if cur < n {
+		return nil, nil, io.ErrUnexpectedEOF
+	}
+	if !has {
+		b = nil
+	}
+	return a, b, nil
 }
 
 // error kept in a variable assigned in several places, checked once; raw Read with n used
